@@ -53,8 +53,8 @@ fn run_op(op: &str) -> String {
         let repr = repr_of(&kv);
         let mut buf = kv.b("buf");
         match guard(|| repr.emit(&mut Ipv6FragmentHeader::new_unchecked(&mut buf[..]))) {
-            None => "ret PANIC | -".to_string(),
-            Some(()) => format!("ret {} | {}", show_bytes(&buf), parse(&buf)),
+            None => format!("ret PANIC | - | blen={}", repr.buffer_len()),
+            Some(()) => format!("ret {} | {} | blen={}", show_bytes(&buf), parse(&buf), repr.buffer_len()),
         }
     } else {
         let bytes = kv.b("bytes");
